@@ -3,6 +3,7 @@
 From Coq Require Import List Bool Arith ZArith NArith.
 From XD Require Import lib.ListAux lib.Toposort model.Manager model.ManagerData
   proofs.ManagerIdx proofs.ManagerInv proofs.ManagerDataInv proofs.ManagerFrozen.
+From XD Require Import model.TasksSem gen.GenTasks proofs.TasksSrc.
 Import ListNotations.
 Local Open Scope nat_scope.
 
@@ -102,6 +103,19 @@ Example C17_windows_nonvacuous :
   nget (d_st (snd (run_final empty_mgr st ops))) [k; b] = Some (Leaf 8).
 Proof. vm_compute. repeat split; reflexivity. Qed.
 
+(* tie to the source: the translated freeze_tree / unfreeze_tree and the frozen guard at the top of
+   register / unregister (gen/GenTasks.v, regenerated on every run) are the model's *)
+Theorem C17_freeze_is_source : forall (m : dmgr),
+  src_freeze_tree m = Ok (set_frozen true m) /\ src_unfreeze_tree m = Ok (set_frozen false m).
+Proof. intros m. split; reflexivity. Qed.
+
+Theorem C17_guards_are_source : forall (t : dtask) (tid : path) (m : dmgr), m_frozen m = true ->
+  src_register path_eqb t m = Err EFrozen /\ src_unregister path_eqb tid m = Err EFrozen.
+Proof.
+  intros t tid m H. rewrite (src_register_eq path_eqb), (src_unregister_eq path_eqb path_eqb_spec).
+  unfold register, unregister. rewrite H. split; reflexivity.
+Qed.
+
 Print Assumptions C17_frozen_rejects.
 Print Assumptions C17_values_propagate.
 Print Assumptions C17_unfreeze_transparent.
@@ -114,3 +128,5 @@ Print Assumptions C17_end_unfrozen.
 Print Assumptions C17_flag_only_toggles.
 Print Assumptions C17_unfreeze_unconditional.
 Print Assumptions C17_windows_nonvacuous.
+Print Assumptions C17_freeze_is_source.
+Print Assumptions C17_guards_are_source.
